@@ -25,6 +25,8 @@ pub struct Algorithm { pub tag: usize }
 impl Algorithm {
     #[verifier::external_body]
     pub fn tag_len(&self) -> (r: usize) ensures r == 16 { unimplemented!() }
+    #[verifier::external_body]
+    pub fn key_len(&self) -> (r: usize) ensures r == 32 { unimplemented!() }
 }
 pub struct UnboundKey { pub k: Ghost<Seq<u8>> }
 pub struct LessSafeKey { pub k: Ghost<Seq<u8>> }
